@@ -17,7 +17,7 @@ func VerifC14Subseq(kind, n int) {
 		end = zzC14Bound("end", n)
 	}
 	s, e, cls := zzC14Class(true, start, endMode, end, n)
-	vrt.Carve("C14-nil-designator-rejected", kind == zzC14List && n == 0)
+	vrt.Carve("C14-valid-args-rejected", kind == zzC14List && n == 0)
 	// CLHS: "subseq always allocates a new sequence for a result; it never
 	// shares storage with an old sequence"; slip returns a Go sub-slice
 	vrt.Carve("C14-subseq-shares-storage", kind != zzC14String && cls == zzC14BValid && s < e)
@@ -62,8 +62,8 @@ func VerifC14Fill(kind, n int) {
 	vrt.Assume(c.feMode == 0)
 	// known findings: an empty sequence, start = length, an explicit end =
 	// length and :end nil are rejected although valid
-	vrt.Carve("C14-nil-designator-rejected", c.endMode == 1)
-	vrt.Carve("C14-bound-at-length-rejected", cls == zzC14BValid && (s == int64(n) || (c.endMode == 2 && e == int64(n))))
+	vrt.Carve("C14-valid-args-rejected", c.endMode == 1)
+	vrt.Carve("C14-valid-args-rejected", cls == zzC14BValid && (s == int64(n) || (c.endMode == 2 && e == int64(n))))
 	form := slip.List{slip.Symbol("fill"), zzC14Quote(zzC14Seq(kind, c.vals)), c.itemObj()}
 	form = append(form, c.keywords()...)
 	out := zzC14Eval(slip.NewScope(), form)
@@ -92,7 +92,7 @@ func VerifC14Replace(kind, m, n int) {
 	// sequence-2 goes through the same seqToList as mismatch; sequence-1
 	// through checkStartEnd, which also rejects an explicit end1 = length
 	nilTarget := kind == zzC14List && m == 0 // (replace nil ...): no checks at all
-	vrt.Carve("C14-bound-at-length-rejected", cls == zzC14BValid &&
+	vrt.Carve("C14-valid-args-rejected", cls == zzC14BValid &&
 		((0 < m && s1 == int64(m)) || (!nilTarget && c.e1Mode == 2 && e1 == int64(m)) ||
 			zzC14MismatchStartBad(n, s2, c.e2Mode)))
 	vrt.Carve("C14-invalid-bounds-accepted", nilTarget && (cls1 == zzC14BEndBig || cls1 == zzC14BStartGt))
